@@ -176,31 +176,6 @@ pub open spec fn structs_pre(m: &naga::Module, o: WriteOptions) -> bool {
             _ => true })
 }
 // somes over a filtered sequence == somes over the full sequence with the rejected positions blanked
-pub proof fn lemma_somes_keep<A, B>(xs: Seq<A>, bs: Seq<bool>, ys: Seq<Option<B>>, zs: Seq<Option<B>>, f: spec_fn(A) -> Option<B>)
-    requires bs.len() == xs.len(), ys.len() == keep(xs, bs).len(), zs.len() == xs.len(),
-        forall|j: int| 0 <= j < ys.len() ==> #[trigger] ys[j] == f(keep(xs, bs)[j]),
-        forall|i: int| 0 <= i < xs.len() ==> #[trigger] zs[i] == (if bs[i] { f(xs[i]) } else { None }),
-    ensures somes(ys) == somes(zs),
-    decreases xs.len(),
-{
-    if xs.len() > 0 {
-        let kx = keep(xs.drop_last(), bs.drop_last());
-        if bs.last() {
-            assert(keep(xs, bs) == kx.push(xs.last()));
-            assert(ys.drop_last().len() == kx.len());
-            assert forall|j: int| 0 <= j < ys.drop_last().len() implies #[trigger] ys.drop_last()[j] == f(kx[j]) by { assert(ys[j] == f(keep(xs, bs)[j])); }
-            lemma_somes_keep(xs.drop_last(), bs.drop_last(), ys.drop_last(), zs.drop_last(), f);
-            assert(ys.last() == f(xs.last()));
-            assert(zs.last() == f(xs.last()));
-        } else {
-            assert(keep(xs, bs) == kx);
-            lemma_somes_keep(xs.drop_last(), bs.drop_last(), ys, zs.drop_last(), f);
-            assert(zs.last() is None);
-        }
-    } else {
-        assert(ys.len() == 0);
-    }
-}
 
 
 // ---------------- C09: the struct section depends on the options only through the five struct switches ----------------
